@@ -84,6 +84,9 @@ var schedAssumptions = append([]string{
 }, commonAssumptions...)
 
 var specs = []spec{
+	{ID: "C19", Pkg: ".", Level: "exploration", Procs: 2,
+		Rule:        "complete grid: constant sample duration in {90000/f ticks for 17 (all divisor and 7-/11-multiple) frame rates 1..120, 3003, 1501, 3754 at 90 kHz; 1024 samples at the 13 standard AAC rates; Opus 2.5-60 ms} x PartMinDuration 50..2000 ms step 50 (5) x SegmentMinDuration {1, 2 s} x key-frame spacing {every sample, 0.5 s, 1 s, 2.5 s, irregular}, each run long enough for three segments; every playlist served after a part is published is checked; distinct = distinct (grid point, observed part duration and PART-TARGET)",
+		Assumptions: e1Assumptions},
 	{ID: "C18", Pkg: ".", Level: "exploration", Procs: 2,
 		Rule:        "retention: all periodic words of period <= 2 (3) of every alphabet family on the configuration grid plus one 1200-write (12000-write) word per variant x RAM/disk x SegmentCount {min, min+2}, observing after every write playlist length, files in Directory, URL-table size and that URIs of expired segments no longer resolve; size: depth-5 (7) trees over payload sizes {5,6,8 bytes, key frame} for every SegmentMaxSize in 40..62 (video) / 10..16 (audio) so that the running total lands below, on and above the limit at every position; distinct = distinct (configuration, final playlists, unit counts)",
 		Assumptions: e1Assumptions},
